@@ -247,6 +247,15 @@ def _ground_table(case, tab, tag, res):
         if q and q not in el.ions:
             continue
         atom = el.ion[q] if q else el
+        # a float array of Q is only read: asking again with the same array gives the same answer, entry by entry
+        Qv = np.array([0.0, 3.0, 7.0])
+        r1 = np.array(atom.xray.f0(Qv), dtype=float)
+        r2 = np.array(atom.xray.f0(Qv), dtype=float)
+        res['claims'] += 1
+        if list(Qv) == [0.0, 3.0, 7.0] and np.array_equal(r1, r2) and all(abs(r1[i] - float(atom.xray.f0(float(q)))) <= 1e-12 * max(1.0, abs(r1[i])) for i, q in enumerate((0.0, 3.0, 7.0))):
+            res['discharged'] += 1
+        else:
+            res['violations'].append(dict(case=case.name, claim=('f0_vector_call[%s|' + tag + ']') % smbl, values={}, observed=[repr((Qv.tolist(), r1.tolist(), r2.tolist()))[:200], 'array unchanged, same answer'], how='concrete'))
         for Q in (0.0, 3.0):
             res['claims'] += 1
             n_api += 1
@@ -341,6 +350,22 @@ def _ground_case(case, tier, seed):
                 del core.PRIVATE_TABLES[k]
     _ground_table(case, pt.elements, 'public', res)
     _ground_table(case, T, 'private', res)
+    # an atom carried over to the private table (core.change_table, Formula.change_table) is that table's own element,
+    # isotope, ion or isotope ion, and is served that table's entry for it
+    from periodictable import formulas
+    for atom, want in ((pt.Ni, T.Ni), (pt.Ni[58], T.Ni[58]), (pt.Ni.ion[2], T.Ni.ion[2]), (pt.Ni[58].ion[2], T.Ni[58].ion[2]),
+                       (pt.O[18].ion[-2], T.O[18].ion[-2]), (pt.D.ion[1], T.D.ion[1]), (pt.H.ion[-1], T.H.ion[-1])):
+        res['claims'] += 1
+        got = core.change_table(atom, T)
+        moved = formulas.formula([(1, atom)]).change_table(T)
+        try:
+            same_f0 = abs(float(got.xray.f0(3.0)) - float(want.xray.f0(3.0))) <= 1e-12
+        except KeyError:
+            same_f0 = True      # no Cromer-Mann entry for this ion in either table
+        if got is want and list(moved.atoms) == [want] and same_f0 and getattr(got, 'charge', 0) == getattr(atom, 'charge', 0):
+            res['discharged'] += 1
+        else:
+            res['violations'].append(dict(case=case.name, claim='change_table[%s]' % atom, values={}, observed=[repr((str(got), getattr(got, 'charge', 0))), str(want)], how='concrete'))
     # nothing is shared between the two tables' records
     res['claims'] += 1
     if T.Fe.magnetic_ff is not pt.Fe.magnetic_ff and T.Fe is not pt.Fe:
